@@ -62,6 +62,7 @@ func ruleC17(w *World, r *Report) {
 		"R17.3 the Exact expansion is a counting loop from zext(low) to zext(high) inclusive, step 1, in a type wider than 16 bits, appending {trunc(iv), 0xFFFF} once per iteration; R17.4 parsePort rejects low > high before constructing the range and parses with bit size 16."
 	r.Explanation += " R17.6 the BESS PDR workers signal completion once, after the last entry; R17.7 the UP4 applications entry omits the port range field exactly for isWildcardMatch() ranges (guard evaluated over all valuations of low/high atoms)."
 	r.Explanation += " R17.8 = C04 R04.12; R17.9 = C08 R08.6; R17.10 the expansion returns freshly allocated slices and writes no package variable; WRAP obligations on the expansion loops."
+	r.Explanation += " R17.11 = C05 R05.15 (workers never report false); R17.12 = C04 R04.9; R17.13 the product slice grows from length 0; a range-indexed fill of make(len(xs)) counts as one append per element."
 	r.NotDecided = "cover exactness of the Ternary strategy (bit arithmetic over 2^32 inputs; not used by CreatePortRangeCartesianProduct)"
 	isW := w.Fn(P, "pfcpiface.(portRange).isWildcardMatch")
 	isE := w.Fn(P, "pfcpiface.(portRange).isExactMatch")
